@@ -16,7 +16,7 @@ PARTS_MIDPOINT = [{"cls": "BinaryPartition"}, {"cls": "DimensionBinaryPartition"
 
 ALGOS_ALL = ["T_HOO", "HCT", "VHCT", "POO", "GPO", "PCT", "VPCT", "DOO", "SOO", "StoSOO", "SequOOL",
              "StroquOOL", "VROOM", "Zooming"]
-REWARD_KINDS = ["const", "zero", "neg", "int", "gauss", "obj", "objneg", "late", "altsign", "fewlevels", "unit", "edge"]
+REWARD_KINDS = ["const", "zero", "neg", "int", "gauss", "obj", "objneg", "late", "altsign", "fewlevels", "unit", "edge", "decay", "ramp"]
 
 
 def arity(part, d):
@@ -91,7 +91,7 @@ def gen_rewards(r, kinds=None, seed=0):
         spec["late"] = r.randint(1, 120)
     if kind in ("obj", "objneg"):
         spec["opt"] = [r.choice([r.random(), r.random(), 0.0, 1.0]) for _ in range(3)]
-    if kind == "edge":
+    if kind in ("edge", "decay", "ramp"):
         spec["sign"] = r.choice([1.0, -1.0])
     return spec
 
